@@ -207,7 +207,8 @@ func sampleJSON(r *rng, t *tnode, mode int, depth int) string {
 	case 's':
 		return pick(r, []string{`""`, `"x"`, `"hello"`, `"é\n"`})
 	case 'a':
-		return pick(r, []string{`1`, `"v"`, `[1,2]`, `{"k":"v"}`, `true`})
+		// numbers in an untyped slot arrive as float64 (1.0 -> 1, 1e2 -> 100, 9007199254740993 -> ...992): the spelling is not kept
+		return pick(r, []string{`1`, `"v"`, `[1,2]`, `{"k":"v"}`, `true`, `1.0`, `1e2`, `9007199254740993`, `[1.50,2e0]`, `{"k":1.0}`})
 	case 'L':
 		n := r.intn(3)
 		es := make([]string, n)
